@@ -219,6 +219,32 @@ func cacheProtocol(c *Ctx, fn *ssa.Function, g *ssa.Global, gn string, addBad, a
 			}
 		}
 	}
+	// of those, the key is what the cached entry is compared by
+	compared := map[int]bool{}
+	for _, f := range group {
+		for _, b := range f.Blocks {
+			for _, ins := range b.Instrs {
+				bo, ok := ins.(*ssa.BinOp)
+				if !ok || (bo.Op != token.EQL && bo.Op != token.NEQ) {
+					continue
+				}
+				for _, x := range []ssa.Value{bo.X, bo.Y} {
+					if ld, ok := x.(*ssa.UnOp); ok && ld.Op == token.MUL {
+						if fa, ok := ld.X.(*ssa.FieldAddr); ok && isLoadOfG(fa.X) {
+							compared[fa.Field] = true
+						}
+					}
+				}
+			}
+		}
+	}
+	if len(compared) > 0 {
+		for f := range keyField {
+			if !compared[f] {
+				delete(keyField, f)
+			}
+		}
+	}
 	// per function of the group: the blocks in which "(*g).key == one of its parameters" is known to hold
 	type keyInfo struct {
 		blocks map[*ssa.BasicBlock]*ssa.Parameter
@@ -300,6 +326,136 @@ func cacheProtocol(c *Ctx, fn *ssa.Function, g *ssa.Global, gn string, addBad, a
 		}
 		return false
 	}
+	// fresh: v is an entry this call built itself with the requested key in its key field
+	var fresh func(fr *frame, v ssa.Value, depth int) bool
+	fresh = func(fr *frame, v ssa.Value, depth int) bool {
+		if depth > 3 {
+			return false
+		}
+		switch x := v.(type) {
+		case *ssa.Phi:
+			for _, e := range x.Edges {
+				if !fresh(fr, e, depth+1) {
+					return false
+				}
+			}
+			return len(x.Edges) > 0
+		case *ssa.Alloc:
+			keyed := false
+			for _, b := range fr.f.Blocks {
+				for _, ins := range b.Instrs {
+					st, ok := ins.(*ssa.Store)
+					if !ok {
+						continue
+					}
+					fa, ok := st.Addr.(*ssa.FieldAddr)
+					if !ok || fa.X != ssa.Value(x) || !keyField[fa.Field] {
+						continue
+					}
+					p, isP := st.Val.(*ssa.Parameter)
+					if !isP || !requested(fr, p) {
+						return false
+					}
+					keyed = true
+				}
+			}
+			return keyed
+		case *ssa.Call:
+			h := x.Common().StaticCallee()
+			if h == nil || !inGroup[h] || h == fr.f {
+				return false
+			}
+			n := 0
+			for _, b := range h.Blocks {
+				for _, ins := range b.Instrs {
+					if ret, ok := ins.(*ssa.Return); ok && len(ret.Results) == 1 {
+						n++
+						if !fresh(&frame{h, x, fr}, unspill(ret, ret.Results[0]), depth+1) {
+							return false
+						}
+					}
+				}
+			}
+			return n > 0
+		}
+		return false
+	}
+	// pathwise: on every path from the entry to the load, either the entry was just stored by this
+	// call itself (built with the requested key), or nothing was stored and the key test came out equal
+	storesG := func(f *ssa.Function) bool {
+		for _, b := range f.Blocks {
+			for _, ins := range b.Instrs {
+				if st, ok := ins.(*ssa.Store); ok && st.Addr == ssa.Value(g) {
+					return true
+				}
+			}
+		}
+		return false
+	}
+	pathwise := func(fr *frame, ld *ssa.UnOp) bool {
+		for _, f := range group {
+			if f != fr.f && storesG(f) {
+				return false
+			}
+		}
+		target := ld.Block()
+		if target == fr.f.Blocks[0] {
+			return false
+		}
+		paths, ok := enumPaths(fr.f.Blocks[0], func(from, to *ssa.BasicBlock) bool { return to == target }, 2000)
+		if !ok {
+			return false
+		}
+		n := 0
+		for i := range paths {
+			p := &paths[i]
+			if p.end != target {
+				continue
+			}
+			n++
+			var last *ssa.Store
+			for bi, b := range p.blocks {
+				for _, ins := range b.Instrs {
+					if bi == len(p.blocks)-1 && ins == ssa.Instruction(ld) {
+						break
+					}
+					if st, ok := ins.(*ssa.Store); ok && st.Addr == ssa.Value(g) {
+						last = st
+					}
+				}
+			}
+			if last != nil {
+				if !fresh(fr, p.resolve(last.Val), 0) {
+					return false
+				}
+				continue
+			}
+			known := false
+			for _, pc := range p.conds {
+				bo, ok := pc.cond.(*ssa.BinOp)
+				if !ok || (bo.Op != token.EQL && bo.Op != token.NEQ) || (bo.Op == token.EQL) != pc.truth {
+					continue
+				}
+				for _, pair := range [][2]ssa.Value{{bo.X, bo.Y}, {bo.Y, bo.X}} {
+					ldk, ok := pair[0].(*ssa.UnOp)
+					if !ok || ldk.Op != token.MUL {
+						continue
+					}
+					fa, ok := ldk.X.(*ssa.FieldAddr)
+					if !ok || !isLoadOfG(fa.X) || !keyField[fa.Field] {
+						continue
+					}
+					if q, isP := pair[1].(*ssa.Parameter); isP && requested(fr, q) {
+						known = true
+					}
+				}
+			}
+			if !known {
+				return false
+			}
+		}
+		return n > 0
+	}
 	var walk func(fr *frame, v ssa.Value, from *ssa.BasicBlock, seen map[ssa.Value]bool, retPos token.Pos, depth int)
 	walk = func(fr *frame, v ssa.Value, from *ssa.BasicBlock, seen map[ssa.Value]bool, retPos token.Pos, depth int) {
 		if seen[v] || depth > 4 {
@@ -330,6 +486,8 @@ func cacheProtocol(c *Ctx, fn *ssa.Function, g *ssa.Global, gn string, addBad, a
 			reuse++
 			if p := keyParamAt(fr.f, from); p != nil && requested(fr, p) {
 				reuseOK++
+			} else if pathwise(fr, v.(*ssa.UnOp)) {
+				reuseOK++
 			} else {
 				addBad("stale-reuse", fmt.Sprintf("reuse of %s in %s", gn, fname(fn)), retPos,
 					fmt.Sprintf("the cached entry can be returned on a path on which it was not compared with the requested key (no dominating '(*%s).key == parameter' test on the key this call was asked for): a call for one key can return the table of another, depending on call history", gn))
@@ -349,7 +507,7 @@ func cacheProtocol(c *Ctx, fn *ssa.Function, g *ssa.Global, gn string, addBad, a
 		addBad("no-reuse", fmt.Sprintf("reuse of %s in %s", gn, fname(fn)), fn.Pos(), "no path on which the cached entry is returned was found: the keyed-reuse clause has nothing to check (undecided = fail)")
 	}
 	if reuse > 0 && reuse == reuseOK {
-		addOK("keyed-reuse", fmt.Sprintf("reuse of %s in %s", gn, fname(fn)), fn.Pos(), "the cached entry reaches a return only under a dominating equality between its key field and the requested key")
+		addOK("keyed-reuse", fmt.Sprintf("reuse of %s in %s", gn, fname(fn)), fn.Pos(), "the cached entry reaches a return only under an equality between its key field and the requested key, or as the entry this very call has just built with that key")
 	}
 	// publish-after-build
 	for _, b := range fn.Blocks {
